@@ -16,6 +16,12 @@ CHECKS = {
  "C01": dict(cat="other", engine="mirsym", tech="bounded symbolic execution of rustc MIR (stage closures composed by role into rehash) with z3 validity queries; Kani on the streaming hash; CLI replay",
              text="Kernel-level: z3 decides over all 64-bit file lengths, prefix sizes and disk kinds that the stage closures hash every byte of every file of an admitted group in the stage producing the final key, that the key contains the length, that hard links of one inode get the same key in every stage (hash closure of each stage composed into rehash's task closure, id-groups of 2 paths), and that the transform output is hashed without a cap. The end-to-end statement follows by the composition argument in DESIGN.md under collision freedom.",
              note="Trusted: MIR front end + summaries, z3, collision freedom of the hash functions; thread-pool plumbing, device detection, child processes and the walk are outside the claim.", ref="DESIGN.md §3 C01"),
+ "C03": dict(cat="other", engine="mirsym", tech="bounded symbolic execution of rustc MIR with z3 validity queries (filter semantics, rehash wiring, task closure)",
+             text="Kernel-level: z3 decides for all 64-bit counts that the replication filter is the documented one and monotone (a candidate group is never pruned when a refinement could qualify); the rehash tail and task closure are executed symbolically (id-groups of 2 paths) to show that a stage drops a file only when its hash failed and passes skipped groups through.",
+             note="Trusted: MIR front end + summaries, z3; sub-group counting (IndexMap), plumbing and the walk are outside the claim.", ref="DESIGN.md §3 C03"),
+ "C06": dict(cat="other", engine="mirsym", tech="bounded symbolic execution of rustc MIR with z3 validity queries against the documented filter semantics; CLI replay",
+             text="z3 decides for all option values and all 64-bit counts that matches/matches_strictly/missing_count/redundant_count and GroupConfig::group_filter implement the documented replication filter and defaults, and that isolate roots are canonicalised like scanned paths. Hard-link / symlink sub-grouping (IndexMap) is not encodable and outside the claim.",
+             note="Trusted: MIR front end + summaries, z3. Partial claim: the sub-group count is a free symbol.", ref="DESIGN.md §3 C06"),
  "C09": dict(cat="other", engine="mirsym", tech="bounded symbolic execution of rustc MIR (own engine) with z3 validity queries against a reference decision table; CLI replay",
              text="Every path of the walk's decision functions and of the closures carrying the nesting level is enumerated symbolically from the MIR of the working tree (environment calls are free symbols); z3 decides for all option values and all 64-bit levels/depths/sizes that the effects equal the documented decision table. Bounded symbolic execution, not a proof: loops over directory entries are cut after one iteration (each entry is handled by the same closure).",
              note="Trusted: my MIR front end and summaries (lib/mirsym.py, lib/summaries.py), rustc's MIR dump, z3; the `ignore` crate, glob matching (C16) and real directory iteration are outside the claim.", ref="DESIGN.md §3 C09"),
